@@ -5,7 +5,7 @@ import sys, os, json, shutil, glob
 pid, m, det, label = sys.argv[1:5]
 note = sys.argv[5] if len(sys.argv) > 5 else ''
 src = f'/tmp/seed/{pid}/_seed/{m}'
-dst = f'/verif/seeded/{pid}-{m}'
+dst = f"/verif/seeded/{pid}-{os.environ.get('KEEP_AS', m)}"  # KEEP_AS: store under another name (later batches reuse m1..m3)
 os.makedirs(dst, exist_ok=True)
 shutil.copy(f'{src}/patch.diff', f'{dst}/patch.diff')
 for f in glob.glob(f'{src}/*test.go.txt') + glob.glob(f'{src}/demo_output.txt') + glob.glob(f'{src}/RUN.txt'):
